@@ -149,6 +149,31 @@ impl Epoch {
         }
     }
 
+    /// Returns the TAI - UTC offset announced by IERS in force at the provided duration since the prime epoch.
+    ///
+    /// The leap second table is indexed by UTC timestamps. If `on_utc_axis` is false, the duration is
+    /// counted in TAI and an entry takes effect once the TAI count reaches that entry's timestamp plus
+    /// the offset which was in force before it, i.e. at the start of the inserted second(s).
+    fn iers_offset_at(duration: Duration, on_utc_axis: bool) -> Duration {
+        let mut offset = Duration::ZERO;
+        for leap_second in LatestLeapSeconds::default() {
+            if !leap_second.announced_by_iers {
+                continue;
+            }
+            // The table stores whole seconds, so these conversions are exact.
+            let mut starts_at = (leap_second.timestamp_tai_s as i64) * Unit::Second;
+            if !on_utc_axis {
+                starts_at += offset;
+            }
+            if duration >= starts_at {
+                offset = (leap_second.delta_at as i64) * Unit::Second;
+            } else {
+                break;
+            }
+        }
+        offset
+    }
+
     fn delta_et_tai(seconds: f64) -> f64 {
         // Calculate M, the mean anomaly.4
         let m = NAIF_M0 + seconds * NAIF_M1;
@@ -215,10 +240,8 @@ impl Epoch {
                     self.duration - delta_tdb_tai + self.time_scale.prime_epoch_offset()
                 }
                 TimeScale::UTC => {
-                    // Assume this is TAI
-                    let mut tai_assumption = *self;
-                    tai_assumption.time_scale = TimeScale::TAI;
-                    self.duration + tai_assumption.leap_seconds(true).unwrap_or(0.0).seconds()
+                    // TAI = UTC + leap_seconds, where the leap seconds are those in force at this UTC time.
+                    self.duration + Self::iers_offset_at(self.duration, true)
                 }
                 TimeScale::GPST => self.duration + GPST_REF_EPOCH.to_tai_duration(),
                 TimeScale::GST => self.duration + GST_REF_EPOCH.to_tai_duration(),
@@ -274,13 +297,9 @@ impl Epoch {
                     prime_epoch_offset + delta_tdb_tai - ts.prime_epoch_offset()
                 }
                 TimeScale::UTC => {
-                    // Assume it's TAI
-                    let epoch = Self {
-                        duration: prime_epoch_offset,
-                        time_scale: TimeScale::TAI,
-                    };
-                    // TAI = UTC + leap_seconds <=> UTC = TAI - leap_seconds
-                    prime_epoch_offset - epoch.leap_seconds(true).unwrap_or(0.0).seconds()
+                    // TAI = UTC + leap_seconds <=> UTC = TAI - leap_seconds, where the leap seconds
+                    // are those in force at this TAI time.
+                    prime_epoch_offset - Self::iers_offset_at(prime_epoch_offset, false)
                 }
                 TimeScale::GPST => prime_epoch_offset - GPST_REF_EPOCH.to_tai_duration(),
                 TimeScale::GST => prime_epoch_offset - GST_REF_EPOCH.to_tai_duration(),
